@@ -34,12 +34,22 @@ pub const DEF: PropDef = PropDef {
 
 pub const SUBS: &[SubDef] = &[
     SubDef { prop: "C06", name: "locality", oracle: locality },
+    SubDef { prop: "C06", name: "locality_huge", oracle: locality_huge },
     SubDef { prop: "C06", name: "defrag", oracle: defrag },
     SubDef { prop: "C06", name: "locality_raw", oracle: locality_raw },
 ];
 
 fn run(ctx: &Ctx) {
     ctx.run_tape("locality", locality, ctx.pick(192_000, 800_000), 700);
+    // every family once per huge suffix size (10 MiB-9, 10 MiB, 10 MiB+1, 16 MiB+3), on a valid structure drawn from a seeded tape
+    let nf = families().len();
+    let seed = ctx.seed;
+    let cases = (0..nf as u8).flat_map(|f| (0..4u8).map(move |k| (f, k))).map(|(f, k)| {
+        let mut v = vec![f, k];
+        v.extend(vmodel::tape::fill(seed ^ (0xC06 + ((f as u64) << 8) + k as u64), 300));
+        v
+    });
+    ctx.run_enum("locality_huge", locality_huge, false, "every parser family x 4 suffixes of 10 MiB and more behind a valid structure", cases.collect::<Vec<_>>().into_iter());
     ctx.run_tape("defrag", defrag, ctx.pick(48_000, 200_000), 1200);
     ctx.run_tape("locality_raw", locality_raw, ctx.pick(120_000, 400_000), 96);
 }
@@ -392,7 +402,14 @@ fn locality(t: &mut Tape, obs: &mut Obs) -> R {
         _ => b = t.small_blob(40),
     }
     let nx = if t.chance(250) { 6 } else { 7 };
-    let x: Vec<u8> = match t.below(nx) {
+    let huge = t.chance(1) && t.chance(40);
+    let x: Vec<u8> = match if huge { 7 } else { t.below(nx) } {
+        7 => {
+            // everything a stream reader may have buffered behind the structure: 10 MiB and more (a limit meant for some internal
+            // buffer must not be applied to the caller's slice)
+            let n = t.pick(&[10 * 1024 * 1024usize - 9, 10 * 1024 * 1024, 10 * 1024 * 1024 + 1, 16 * 1024 * 1024 + 3]);
+            vec![0x5a; n]
+        }
         6 => {
             // a suffix of 64 KiB and more (sizes around multiples of 2^16): availability computed in a narrow integer shows here
             let n = t.pick(&[65534usize, 65535, 65536, 65537, 70000, 131071, 131072]);
@@ -416,6 +433,16 @@ fn locality(t: &mut Tape, obs: &mut Obs) -> R {
         }
     }
     Ok(())
+}
+
+/// parameter tape: [family, size index, generator tape...]
+fn locality_huge(t: &mut Tape, obs: &mut Obs) -> R {
+    let fams = families();
+    let fam = &fams[t.u8() as usize % fams.len()];
+    let n = [10 * 1024 * 1024usize - 9, 10 * 1024 * 1024, 10 * 1024 * 1024 + 1, 16 * 1024 * 1024 + 3][t.u8() as usize % 4];
+    let b = (fam.gen)(t).buf;
+    let x = vec![0x5au8; n];
+    check_pair(fam, &b, &x, "huge-suffix", obs)
 }
 
 /// the tape is raw: [family selector, split selector, bytes...]; b = first part of the bytes, x = the rest
